@@ -71,7 +71,7 @@ _IS = {
 
 
 class Inst:
-    __slots__ = ("id", "key", "body", "parent", "call_bb", "depth", "kind", "closure_map", "create_site")
+    __slots__ = ("id", "key", "body", "parent", "call_bb", "depth", "kind", "closure_map", "create_site", "type_map")
 
     def __init__(self, id, key, body, parent, call_bb, depth, kind):
         self.id = id
@@ -82,6 +82,7 @@ class Inst:
         self.depth = depth
         self.kind = kind            # 'entry' | 'call' | 'closure'
         self.closure_map = {}       # generic param name -> closure key
+        self.type_map = {}          # generic param name -> concrete type (as printed at the inlining call site)
         self.create_site = None     # for closures: (inst, bb, stmt index) of the aggregate
 
 
@@ -106,6 +107,16 @@ class Program:
         if k.startswith("testing::") or k.startswith("<testing::"):
             return None
         return k
+
+    def trait_impl(self, trait, method, concrete_ty):
+        """key of the crate-local `impl <trait> for <concrete type>`'s method, or None"""
+        base = re.sub(r"<.*$", "", concrete_ty.lstrip("&").replace("mut ", ""))
+        if _NOINLINE_TRAITS.search(trait):
+            return None
+        for k, b in self.bodies.items():
+            if b.get("impl_trait") == trait and k.endswith("::" + method) and re.sub(r"<.*$", "", b.get("impl_self") or "") == base:
+                return k
+        return None
 
     def liveness(self, key):
         """(live_in per block, address-taken locals) for a body (non-cleanup blocks)."""
@@ -314,6 +325,13 @@ class EGraph:
                         pn = g0.get("param")
                         if pn and pn in inst.closure_map:
                             sub_key = inst.closure_map[pn]
+                    # trait method on a type parameter that the inlining call site instantiated with a crate-local type
+                    if not sub_key and c.get("trait") and not c.get("rkey"):
+                        g0 = (c.get("gargs") or [{}])[0]
+                        pn = g0.get("param") or c.get("self_ty")
+                        conc = inst.type_map.get(pn)
+                        if conc:
+                            sub_key = self.prog.trait_impl(c["trait"], c["path"].split("::")[-1], conc)
                     if sub_key and self.no_inline(sub_key):
                         sub_key = None
                 if sub_key:
@@ -328,6 +346,10 @@ class EGraph:
                                 sub.closure_map[nm] = gv["closure"]
                             elif gv.get("param") and gv["param"] in inst.closure_map:
                                 sub.closure_map[nm] = inst.closure_map[gv["param"]]
+                            if gv.get("param") and gv["param"] in inst.type_map:
+                                sub.type_map[nm] = inst.type_map[gv["param"]]
+                            elif gv.get("s") and not gv.get("param") and "closure" not in gv:
+                                sub.type_map[nm] = gv["s"]
                     self.callee_inst[n] = sub
                     self._edge(n, (sub.id, 0), ("call",))
                     sub_rets = self._build(sub)
@@ -923,6 +945,21 @@ class Product:
                 tag = ("Err" if "Result<" in dty else "None", a0[1] if a0 else None)
             elif _PRESERVE.search(p):
                 tag = a0
+                if a0 is None and re.search(r"::(as_ref|as_mut|as_deref|as_deref_mut)$", p) and t["args"] \
+                        and t["args"][0]["k"] in ("copy", "move"):
+                    # a view of an Option/Result whose variant is not known yet: the view and the viewed place get one shared origin,
+                    # so that a later test of the view is a fact about the place (and is remembered for the place)
+                    a = t["args"][0]
+                    src = None
+                    if not a["p"]["proj"]:
+                        r = self.g._pointee(inst, a["p"]["l"])
+                        if r is not None:
+                            src = self.g.slot_of(r[0], r[1])
+                    if src is None:
+                        src = self.g.slot_of(inst, a["p"])
+                    if src is not None and src not in tags and _is_tagged_ty(dty):
+                        tag = ("?", ("place", src, n))
+                        tags[src] = tag
             elif _OK_OR.search(p):
                 if a0:
                     tag = ({"Some": "Ok", "None": "Err", "?": "?"}.get(a0[0]), a0[1])
@@ -1027,6 +1064,13 @@ class Product:
                     seen.add(qi)
                     work.append(qi)
 
+    @staticmethod
+    def _resolve_same_origin(tags, origin, variant):
+        """slots that hold the same not-yet-known value (same origin: a place and its as_ref() view) learn the variant together"""
+        for s2, v2 in list(tags.items()):
+            if v2 is not None and v2[0] == "?" and v2[1] == origin:
+                tags[s2] = (variant, origin)
+
     def _prune(self, m, tags):
         """drop tags of locals of m's instance that are dead on entry to block m (and not address-taken)."""
         inst = self.g.inst(m)
@@ -1072,6 +1116,7 @@ class Product:
                     nt[slot] = (tg.get("variant"), origin)
                 if origin is not None:
                     learn = ((origin, tg.get("variant")),)
+                    self._resolve_same_origin(nt, origin, tg.get("variant"))
                 outs.append(((inst.id, tg["bb"]), nt, learn))
             if rest:
                 nt = dict(tags)
@@ -1081,6 +1126,7 @@ class Product:
                         nt[slot] = (rest[0], origin)
                     if origin is not None:
                         learn = ((origin, rest[0]),)
+                        self._resolve_same_origin(nt, origin, rest[0])
                 outs.append(((inst.id, t["otherwise"]), nt, learn))
             return outs
         # integer / bool switch on a local
@@ -1110,8 +1156,14 @@ class Product:
                 bv = val if not neg else ("false" if val == "true" else "true")
                 old = nt.get(bslot)
                 nt[bslot] = (bv, old[1] if old else None)
+                if old and old[0] == "?" and old[1] is not None:
+                    self._resolve_same_origin(nt, old[1], bv)
             if origin is not None:
                 learn = ((origin, val),)
+                if is_bool:
+                    for o_b, v_b in norm_learn(learn):
+                        if v_b in ("Some", "None", "Ok", "Err") and o_b != origin:
+                            self._resolve_same_origin(nt, o_b, v_b)
             outs.append(((inst.id, tg["bb"]), nt, learn))
         nt = dict(tags)
         learn = ()
@@ -1126,6 +1178,9 @@ class Product:
                 nt[bslot] = (bv, old[1] if old else None)
             if origin is not None:
                 learn = ((origin, val),)
+                for o_b, v_b in norm_learn(learn):
+                    if v_b in ("Some", "None", "Ok", "Err") and o_b != origin:
+                        self._resolve_same_origin(nt, o_b, v_b)
         elif origin is not None:
             learn = ((origin, "otherwise"),)
         outs.append(((inst.id, t["otherwise"]), nt, learn))
